@@ -51,10 +51,11 @@ type inmemState struct {
 	stored  int  // key states under which a map assignment happened (bitmask)
 	deleted int  // key states under which a delete happened
 	storedN int
+	fresh   bool // the last lookup happened in the critical section that is still open
 }
 
 func (s *inmemState) Key() string {
-	return fmt.Sprintf("%d/%d/%v/%d/%d/%d", s.lock, s.ks, s.looked, s.stored, s.deleted, s.storedN)
+	return fmt.Sprintf("%d/%d/%v/%d/%d/%d/%v", s.lock, s.ks, s.looked, s.stored, s.deleted, s.storedN, s.fresh)
 }
 func (s *inmemState) Copy() ssax.PState { c := *s; return &c }
 
@@ -88,6 +89,9 @@ func runC17(c *core.Ctx) {
 	c.Rule("R17.1", "every access to the in-memory map holds the handler's mutex; assignments and delete hold it exclusively; every path unlocks exactly once before returning; the map is not handed out", 10)
 	c.Rule("R17.2", "per method and key state (absent, live, expired) the result and map effect are those of the reference map: add: live => ErrKeyExists and no effect, otherwise store; replace/append/prepend/touch/gat: live => store, otherwise not-found/miss and no effect on a live entry; delete: live => removed and nil, otherwise ErrKeyNotFound; get/gete: hit iff live, never a map write", 30)
 
+	c.Rule("R17.3", "check and act are one critical section: no map write happens under a lock acquired after the lookup that decided the command (two connections adding the same missing key must not both succeed)", 10)
+	c.Rule("R17.4", "one mutex per map: wherever a handler is built around a map that other handlers share, it is built around the mutex they share too", 1)
+
 	const rel = "handlers/inmem"
 	impl, ok := handlerImpl(c, rel)
 	if !ok {
@@ -109,6 +113,7 @@ func runC17(c *core.Ctx) {
 		c.Undecided("R17.1", "inmem.Handler#fields", "-", "no map / mutex field found in the handler")
 		return
 	}
+	checkOneMutexPerMap(c, rel, impl, mapField, mutexField)
 	isMap := func(v ssa.Value) bool {
 		v = resolveLocal(v)
 		if u, ok := v.(*ssa.UnOp); ok && u.Op == token.MUL {
@@ -175,12 +180,15 @@ func runC17(c *core.Ctx) {
 					if s.lock == ssax.NotHeld {
 						add(0, x.Pos(), "map read without the mutex")
 					}
-					s.ks, s.looked = ksAll, true
+					s.ks, s.looked, s.fresh = ksAll, true, true
 				}
 			case *ssa.MapUpdate:
 				if isMap(x.Map) {
 					if s.lock != ssax.Exclusive {
 						add(0, x.Pos(), "map assignment while the mutex is held in mode %s (concurrent map writes are fatal)", lockModeName(s.lock))
+					}
+					if s.looked && !s.fresh {
+						add(-1, x.Pos(), "the entry is assigned in a critical section entered after the lookup that decided the command: another connection can change the key between the two")
 					}
 					ks := s.ks
 					if !s.looked {
@@ -195,6 +203,9 @@ func runC17(c *core.Ctx) {
 					if s.lock != ssax.Exclusive {
 						add(0, x.Pos(), "delete() on the shared map while the mutex is held in mode %s: a concurrent map write terminates the process", lockModeName(s.lock))
 					}
+					if s.looked && !s.fresh {
+						add(-1, x.Pos(), "the entry is deleted in a critical section entered after the lookup that decided the command: another connection can change the key between the two")
+					}
 					ks := s.ks
 					if !s.looked {
 						ks = ksAll
@@ -207,14 +218,14 @@ func runC17(c *core.Ctx) {
 						if s.lock != ssax.NotHeld {
 							add(0, x.Pos(), "Lock while the mutex is already held")
 						}
-						s.lock = ssax.Exclusive
+						s.lock, s.fresh = ssax.Exclusive, false
 					}
 				case "(*sync.RWMutex).RLock":
 					if isHandlerMutex(cc.Args[0], mutexField) {
 						if s.lock != ssax.NotHeld {
 							add(0, x.Pos(), "RLock while the mutex is already held")
 						}
-						s.lock = ssax.Shared
+						s.lock, s.fresh = ssax.Shared, false
 					}
 				case "(*sync.RWMutex).Unlock", "(*sync.Mutex).Unlock":
 					if isHandlerMutex(cc.Args[0], mutexField) {
@@ -393,6 +404,19 @@ func runC17(c *core.Ctx) {
 		} else {
 			c.OK("R17.1", fkey+"#lock-discipline", c.P.Pos(fn.Pos()), fmt.Sprintf("%d abstract states explored; all map accesses under the mutex, writes exclusive, one unlock per path", ex.Visited))
 		}
+		var atom []string
+		for _, f := range finds {
+			if f.state == -1 && !seen[f.detail+f.pos] {
+				seen[f.detail+f.pos] = true
+				atom = append(atom, f.detail+" at "+f.pos)
+			}
+		}
+		sort.Strings(atom)
+		if len(atom) > 0 {
+			c.Violate("R17.3", fkey+"#check-then-act", c.P.Pos(fn.Pos()), atom[0], atom...)
+		} else {
+			c.OK("R17.3", fkey+"#check-then-act", c.P.Pos(fn.Pos()), "every map write happens in the critical section of the lookup that decided it (or needs no lookup)")
+		}
 		for _, bit := range []int{ksAbsent, ksLive, ksExpired} {
 			var fs []string
 			seen := map[string]bool{}
@@ -473,4 +497,50 @@ func literalBool(v ssa.Value, field string) (val, known bool) {
 		}
 	}
 	return val, true
+}
+
+// checkOneMutexPerMap (R17.4): every construction of the handler pairs its map with a mutex of the same sharing scope.
+// A handler built once at package initialisation is one instance; a handler built per call around a shared map
+// (package-level variable, parameter, captured variable) must take the mutex from the same shared place - a mutex
+// created with the handler (or embedded by value) guards nothing against the other handlers using that map.
+func checkOneMutexPerMap(c *core.Ctx, rel string, impl core.Impl, mapField, mutexField string) {
+	pv := &ssax.Prov{}
+	n := 0
+	for _, fn := range pkgFuncs(c, rel) {
+		isInit := fn.Name() == "init" || strings.HasPrefix(fn.Name(), "init#")
+		counts := map[string]int{}
+		ssax.Instrs(fn, func(ins ssa.Instruction) {
+			al, ok := ins.(*ssa.Alloc)
+			if !ok {
+				return
+			}
+			nm := namedOf(al.Type())
+			if nm == nil || nm.Obj() != impl.Named.Obj() {
+				return
+			}
+			n++
+			key := ordinalKey(counts, core.FuncName(fn)+"#handler-built")
+			if isInit {
+				c.OK("R17.4", key, c.P.Pos(al.Pos()), "built once at package initialisation: one map, one mutex")
+				return
+			}
+			shared := func(s ssax.Src) bool { return s.Kind == "global" || s.Kind == "param" || s.Kind == "freevar" }
+			var mapShared, muOwn []string
+			for _, s := range pv.Sources(al, mapField) {
+				if shared(s) {
+					mapShared = append(mapShared, s.String())
+				}
+			}
+			for _, s := range pv.Sources(al, mutexField) {
+				if !shared(s) {
+					muOwn = append(muOwn, s.String())
+				}
+			}
+			c.Check(len(mapShared) == 0 || len(muOwn) == 0, "R17.4", key, c.P.Pos(al.Pos()), "map and mutex have the same sharing scope",
+				fmt.Sprintf("the handler is built around the shared map %s but with a mutex of its own (%s): handlers of different connections lock different mutexes around the same map", strings.Join(mapShared, ","), strings.Join(muOwn, ",")))
+		})
+	}
+	if n == 0 {
+		c.Undecided("R17.4", "inmem.Handler#construction", "-", "no construction of the handler found")
+	}
 }
